@@ -1595,4 +1595,21 @@ pub mod verif_hooks {
     pub fn from_parts(coefs: &[i16], shift: i8, precision: usize) -> QuantizedParameters {
         QuantizedParameters::from_parts(coefs, coefs.len(), shift, precision)
     }
+
+    /// Cache key component of a window (`None` = rectangle, `Some(bits)` = Tukey with that alpha).
+    pub fn window_fingerprint(alpha_bits: Option<u32>) -> u64 {
+        fingerprint_window(&alpha_bits.map_or(Window::Rectangle, |b| Window::Tukey { alpha: f32::from_bits(b) }))
+    }
+
+    /// The window as the encoder obtains it (through the calling thread's cache), bit patterns.
+    pub fn window_cached(alpha_bits: Option<u32>, size: usize) -> Vec<u32> {
+        let w = alpha_bits.map_or(Window::Rectangle, |b| Window::Tukey { alpha: f32::from_bits(b) });
+        SimdVec::as_ref(&get_window(&w, size)).iter().map(|x| x.to_bits()).collect()
+    }
+
+    /// The window computed from scratch, bit patterns.
+    pub fn window_direct(alpha_bits: Option<u32>, size: usize) -> Vec<u32> {
+        let w = alpha_bits.map_or(Window::Rectangle, |b| Window::Tukey { alpha: f32::from_bits(b) });
+        window_weights(&w, size).iter().map(|x| x.to_bits()).collect()
+    }
 }
